@@ -264,7 +264,7 @@ func runC18(c *ctx) error {
 		mk(edBase, "a", jwa.EdDSA), mk(edBase, "b", jwa.EdDSA), mk(edBase, nil, jwa.EdDSA), mk(edBase, "a", nil),
 		mk(octBase, "a", jwa.HS512), mk(octBase, "b", jwa.HS512), mk(ecBase, "b", jwa.ES512), mk(ecBase, "a", jwa.ES256), mk(edBase, "", jwa.EdDSA),
 	}
-	requested := []string{"", "a", "b", "c"}
+	requested := []string{"", "a", "b", "c", " ", "a ", " a", "a\n", "\t", "A"}
 	var sets [][]int
 	sets = append(sets, []int{})
 	for i := range pool {
